@@ -31,3 +31,11 @@ def sphere_delayed(x):
 
 def g2p_scale(x):
     return np.asarray(x, dtype=np.float64) * 0.5 - 0.25
+
+
+def neg_sphere_delayed(x):
+    return -sphere_delayed(x)
+
+
+def neg_onemax_delayed(x):
+    return -onemax_delayed(x)
